@@ -9,7 +9,6 @@ import (
 	"github.com/pentops/j5/internal/bcl/internal/verif/codecx"
 	"github.com/pentops/j5/internal/bcl/internal/verif/j5ref"
 	"github.com/pentops/j5/internal/bcl/internal/verif/mgen"
-	"github.com/pentops/j5/internal/bcl/internal/verif/pgen"
 	"github.com/pentops/j5/internal/bcl/internal/verif/vf"
 	"google.golang.org/protobuf/reflect/protoreflect"
 	"google.golang.org/protobuf/types/dynamicpb"
@@ -31,7 +30,7 @@ func laneCase(raw json.RawMessage) ([]vf.Failure, error) {
 	return fails, nil
 }
 
-var lanes = map[string]vf.LaneFunc{"raw": laneCase, "j5s": laneCase}
+var lanes = map[string]vf.LaneFunc{"raw": laneCase, "j5s": laneCase, "compiled": laneCase}
 
 func TestReplay(t *testing.T) {
 	if !vf.RunReplayMode(t, prop, lanes) {
@@ -72,10 +71,13 @@ func checkRoundtrip(s *codecx.Schema, msg protoreflect.Message) (fails []vf.Fail
 
 var ntClasses = []string{"nested-object", "exposed-oneof-set", "wrapper-oneof-set", "array-of-messages", "map-of-messages", "int64-boundary", "uint64-boundary", "optional-zero", "pb-any", "j5-any-form0", "j5-any-form1", "j5-any-form2"}
 
-func TestRaw(t *testing.T) {
-	r := vf.Start(t, prop, "raw")
+func TestRaw(t *testing.T)      { run(t, "raw", "raw") }
+func TestCompiled(t *testing.T) { run(t, "compiled", "j5s") }
+
+func run(t *testing.T, lane, source string) {
+	r := vf.Start(t, prop, lane)
 	rapid.Check(t, func(t *rapid.T) {
-		s, err := codecx.DrawSchema(t, pgen.Supported)
+		s, err := codecx.DrawFrom(t, source)
 		if err != nil {
 			t.Fatalf("generator: %v", err)
 		}
@@ -87,7 +89,7 @@ func TestRaw(t *testing.T) {
 			}
 			ctx := s.MsgCtx(false)
 			msg := ctx.Message(t, md, 0, "m.")
-			c := s.Case(msg, "raw")
+			c := s.Case(msg, source)
 			fails, doc := checkRoundtrip(s, msg)
 			c.Doc = doc
 			nt := mgen.HasHardText(doc)
